@@ -96,6 +96,11 @@ class Ctx:
             self.other[k] = self.other.get(k, 0) + 1
 
     # ---- verdict ----------------------------------------------------------
+    def unlisted_count(self):
+        """violations of the property under check that no open known finding covers"""
+        mine_open = [k for k in load_known() if k["property"] == self.prop and k["status"] == "open"]
+        return sum(1 for v in self.viol if not any(matches(k["match"], v) for k in mine_open))
+
     def finish(self, wall):
         kf = load_known()
         mine_open = [k for k in kf if k["property"] == self.prop and k["status"] == "open"]
@@ -556,7 +561,7 @@ def family_a(ctx, focus):
     nch = max(1, (len(scripts) + 2999) // 3000)
     for k in range(nch):
         run_scripts(ctx, scripts[k::nch], "main" if k == 0 else "main-%d" % k)
-        if ctx.viol and k + 1 < nch:
+        if k + 1 < nch and ctx.unlisted_count():
             ctx.extra["stopped_after_chunk"] = "%d of %d (violations of %s found)" % (k + 1, nch, ctx.prop)
             break
     _tick(ctx, "scripts on the real code + B-mon")
@@ -704,6 +709,13 @@ def check_C03(ctx):
 
 def check_C04(ctx):
     family_a(ctx, {"nunary_q": 300, "nunary_t": 3000, "nsim_q": 220, "nsim_t": 3500, "extra": [("gc", 12)]})
+    # "deadlines ... reach the handler": real (wall-clock) caller deadlines through
+    # the real HTTP client and server, with and without outgoing metadata --
+    # Deadline!PropCases judged by Deadline!ChkProp (the cases of C09's check)
+    l2_stateless(ctx, "Deadline", "deadline",
+                 "Deadline!PropCases: caller deadlines from 100 us to 23 days through the real HTTP client and server; the "
+                 "handler must have a deadline, not later than the caller's (transit + 1 ms) and not spuriously early",
+                 expr="PropCases", sig_keys=("fam", "kind", "mant", "exp"))
 
 
 def check_C05(ctx):
@@ -753,7 +765,14 @@ def run_cases(ctx, kind, cases_file, name=None):
                          timeout=3000)
     if p.returncode != 0:
         crash = crash_event(p.stderr)
-        raise vlib.Infra("case driver %s failed (rc=%d): %s\n%s" % (kind, p.returncode, crash, p.stderr[-3000:]))
+        if crash is None:
+            raise vlib.Infra("case driver %s failed (rc=%d):\n%s" % (kind, p.returncode, p.stderr[-3000:]))
+        # the process died from a panic on a goroutine of the library (one that
+        # no caller can recover): an observable behaviour of the real code. The
+        # cases judged so far stand; the crash is reported for this property.
+        ncase = sum(1 for _ in open(out)) if os.path.exists(out) else 0
+        ctx.add_violation(dict(prop=ctx.prop, why="process-crash-in-library", ev=kind, text=crash,
+                               case=dict(fam="crash", after_cases=ncase, text=crash)))
     return out
 
 
@@ -769,6 +788,11 @@ def l2_stateless(ctx, base, kind, rule, expr="Cases", consts=None, sig_keys=(), 
             for c in extra_cases:
                 f.write(json.dumps(c) + "\n")
     out = run_cases(ctx, kind, cases)
+    if not os.path.exists(out) or os.path.getsize(out) == 0:
+        # (the driver crashed inside the library before any case was recorded;
+        # run_cases has reported it)
+        ctx.rules.append(rule)
+        return dict(viol=[], consumed=0)
     j = vlib.monitor_cases(ctx.scratch, base, out, chk=chk)
     ctx.states += j["tlc_states"]
     ctx.transitions += j["tlc_generated"]
